@@ -140,11 +140,14 @@ Proof.
   all: match goal with |- context [match ?l with _ => _ end] => destruct l as [|? [|? ?]] end; simpl; lia.
 Qed.
 
+Lemma advance_le : forall r rest, (length (advance r rest) <= length r)%nat.
+Proof. intros r rest. unfold advance. apply skipn_length_le. Qed.
+
 Lemma read_float_le : forall cur v rest, read_float cur = Ok (v, rest) -> (length rest <= length cur)%nat.
 Proof.
   intros cur v rest H. unfold read_float in H. bind_ok H. apply skip_spaces_le in Ha. destruct Ha as [L _].
   destruct (string_to_float x) as [[v' r']|] eqn:E.
-  - apply string_to_float_le in E. destruct v'; try (inv H; lia).
+  - pose proof (advance_le x r'). destruct v'; try (inv H; lia).
     destruct (beq (region x) s_NaN); [inv H; lia|discriminate].
   - destruct (beq (region x) s_nan); [inv H; lia|discriminate].
 Qed.
@@ -778,4 +781,225 @@ Lemma binary_reject_search_version : forall file req en, hdr_search_version file
 Proof.
   intros file req en H. unfold check_binary_header. fold (hdr_fixed file). fold (hdr_type file). fold (hdr_search_version file).
   apply N.eqb_neq in H. destruct_ifs; rewrite H in *; simpl in *; discriminate.
+Qed.
+
+(* ---- every cursor handed on is a suffix of the file; an accepted file contains the end marker ------------------------------ *)
+Definition suffix (r s : list N) : Prop := exists a, s = a ++ r.
+Definition contains (p s : list N) : Prop := exists a b, s = a ++ p ++ b.
+
+Lemma suffix_refl : forall s, suffix s s.
+Proof. intros s. exists []. reflexivity. Qed.
+Lemma suffix_trans : forall a b c, suffix a b -> suffix b c -> suffix a c.
+Proof. intros a b c [x X] [y Y]. exists (y ++ x). subst. rewrite app_assoc. reflexivity. Qed.
+Lemma suffix_cons : forall c s, suffix s (c :: s).
+Proof. intros c s. exists [c]. reflexivity. Qed.
+Lemma contains_suffix : forall p r s, suffix r s -> contains p r -> contains p s.
+Proof. intros p r s [x X] [a [b B]]. exists (x ++ a), b. subst. rewrite app_assoc. reflexivity. Qed.
+Lemma suffix_skip_while : forall f s, suffix (skip_while f s) s.
+Proof. intros f s. destruct (skip_while_app f s) as [a A]. exists a. exact A. Qed.
+Lemma suffix_skipn : forall n (s : list N), suffix (skipn n s) s.
+Proof. intros n s. exists (firstn n s). symmetry. apply firstn_skipn. Qed.
+
+Lemma take_line_split : forall s l a, take_line s = (l, a) -> s = l ++ match a with Some r => 10 :: r | None => [] end.
+Proof.
+  induction s as [|c s IH]; intros l a H; simpl in H; [inv H; reflexivity|].
+  destruct (N.eqb_spec c 10).
+  - inv H. reflexivity.
+  - destruct (take_line s) as [l' a'] eqn:E. inv H. simpl. f_equal. apply IH. reflexivity.
+Qed.
+
+Lemma strip_cr_prefix : forall l, exists t, l = strip_cr l ++ t.
+Proof.
+  intros l. unfold strip_cr. destruct (rev l) as [|y t] eqn:R; [exists []; rewrite app_nil_r; reflexivity|].
+  assert (D : {y = 13} + {y <> 13}) by (apply N.eq_dec). destruct D as [D|D].
+  - subst y. exists [13]. rewrite <- (rev_involutive l), R. reflexivity.
+  - assert (X : match y with 13 => rev t | _ => l end = l).
+    { destruct y as [|p]; [reflexivity|]. do 4 (destruct p as [p|p|]; try reflexivity). exfalso. apply D. reflexivity. }
+    rewrite X. exists []. rewrite app_nil_r. reflexivity.
+Qed.
+
+(* a line that was read sits in the input, and what follows it is a suffix *)
+Lemma read_line_split : forall cur l rest, read_line cur = Ok (l, rest) -> suffix rest cur /\ exists b, cur = l ++ b.
+Proof.
+  intros cur l rest H. unfold read_line in H. destruct cur as [|c s]; [discriminate|].
+  destruct (take_line (c :: s)) as [l' [r|]] eqn:E; inv H; apply take_line_split in E.
+  - split; [exists (l' ++ [10]); rewrite E, <- app_assoc; reflexivity|].
+    destruct (strip_cr_prefix l') as [t T]. exists (t ++ 10 :: rest). rewrite E. rewrite T at 1. rewrite <- app_assoc. reflexivity.
+  - split; [exists (c :: s); rewrite app_nil_r; reflexivity|]. exists []. exact E.
+Qed.
+
+Lemma get_suffix : forall cur c r, get cur = Ok (c, r) -> suffix r cur.
+Proof. intros [|x s] c r H; simpl in H; [discriminate|]. inv H. apply suffix_cons. Qed.
+Lemma skip_spaces_suffix : forall d cur r, skip_spaces d cur = Ok r -> suffix r cur.
+Proof. intros d cur r H. unfold skip_spaces in H. destruct (skip_while d cur) eqn:E; [discriminate|]. inv H. rewrite <- E. apply suffix_skip_while. Qed.
+Lemma read_delimited_suffix : forall d cur w r, read_delimited d cur = Ok (w, r) -> suffix r cur.
+Proof.
+  intros d cur w r H. unfold read_delimited in H. bind_ok H. inv H. apply skip_spaces_suffix in Ha.
+  eapply suffix_trans; [apply suffix_skip_while|exact Ha].
+Qed.
+Lemma read_float_suffix : forall cur v r, read_float cur = Ok (v, r) -> suffix r cur.
+Proof.
+  intros cur v r H. unfold read_float in H. bind_ok H. apply skip_spaces_suffix in Ha.
+  destruct (string_to_float x) as [[v' r']|].
+  - assert (S : suffix (advance x r') x) by apply suffix_skipn.
+    destruct v'; try (inv H; eapply suffix_trans; [exact S|exact Ha]).
+    destruct (beq (region x) s_NaN); [inv H; eapply suffix_trans; [exact S|exact Ha]|discriminate].
+  - destruct (beq (region x) s_nan); [inv H; exact Ha|discriminate].
+Qed.
+Lemma consume_newline_suffix : forall cur r, consume_newline cur = Ok r -> suffix r cur.
+Proof. intros cur r H. unfold consume_newline in H. bind_ok H. destruct x as [c r']. apply get_suffix in Ha. destruct (c =? 10); [inv H; exact Ha|discriminate]. Qed.
+
+Ltac sfx := eauto using suffix_refl, suffix_trans, suffix_cons.
+
+Lemma read_backoff_middle_suffix : forall cur v r, read_backoff_middle cur = Ok (v, r) -> suffix r cur.
+Proof.
+  intros cur v r H. unfold read_backoff_middle in H. bind_ok H. destruct x as [c r0]. apply get_suffix in Ha.
+  destruct (c =? 9).
+  - bind_ok H. destruct x as [v1 r1]. apply read_float_suffix in Ha0. destruct (is_nan_or_inf v1); [discriminate|].
+    bind_ok H. destruct x as [c2 r2]. apply get_suffix in Ha1. destruct (c2 =? 13).
+    + bind_ok H. apply consume_newline_suffix in Ha2. inv H. sfx.
+    + destruct (c2 =? 10); [inv H; sfx|discriminate].
+  - destruct (c =? 13).
+    + bind_ok H. apply consume_newline_suffix in Ha0. inv H. sfx.
+    + destruct (c =? 10); [inv H; sfx|discriminate].
+Qed.
+Lemma read_backoff_longest_suffix : forall cur r, read_backoff_longest cur = Ok r -> suffix r cur.
+Proof.
+  intros cur r H. unfold read_backoff_longest in H. bind_ok H. destruct x as [c r0]. apply get_suffix in Ha.
+  destruct (c =? 9).
+  - bind_ok H. destruct x as [v1 r1]. apply read_float_suffix in Ha0. destruct (is_zero v1); [inv H; sfx|discriminate].
+  - destruct (c =? 13).
+    + apply consume_newline_suffix in H. sfx.
+    + destruct (c =? 10); [inv H; sfx|discriminate].
+Qed.
+Lemma read_1gram_suffix : forall cur w p b r, read_1gram cur = Ok (w, p, b, r) -> suffix r cur.
+Proof.
+  intros cur w p b r H. unfold read_1gram in H. bind_ok H. destruct x as [p0 r0]. apply read_float_suffix in Ha.
+  destruct (is_positive p0); [discriminate|]. bind_ok H. destruct x as [c r1]. apply get_suffix in Ha0.
+  destruct (negb (c =? 9)); [discriminate|]. bind_ok H. destruct x as [w0 r2]. apply read_delimited_suffix in Ha1.
+  bind_ok H. destruct x as [b0 r3]. apply read_backoff_middle_suffix in Ha2. inv H. sfx.
+Qed.
+Lemma read_words_suffix : forall n words cur ids ws ids' ws' r, read_words n words cur ids ws = Ok (ids', ws', r) -> suffix r cur.
+Proof.
+  induction n as [|k IH]; intros words cur ids ws ids' ws' r H; simpl in H; [inv H; sfx|].
+  bind_ok H. destruct x as [w r0]. apply read_delimited_suffix in Ha.
+  destruct ((index words w =? 0) && negb (is_unk w)); [discriminate|]. apply IH in H. sfx.
+Qed.
+Lemma read_ngram_suffix : forall n longest words cur e r, read_ngram n longest words cur = Ok (e, r) -> suffix r cur.
+Proof.
+  intros n longest words cur e r H. unfold read_ngram in H. bind_ok H. destruct x as [p0 r0]. apply read_float_suffix in Ha.
+  destruct (is_positive p0); [discriminate|]. bind_ok H. destruct x as [[ids ws] r1]. apply read_words_suffix in Ha0.
+  destruct longest.
+  - bind_ok H. apply read_backoff_longest_suffix in Ha1. inv H. sfx.
+  - bind_ok H. destruct x as [b r2]. apply read_backoff_middle_suffix in Ha1. inv H. sfx.
+Qed.
+
+(* the line a blank-skipping loop stops at occurs in the input *)
+Lemma skip_blank_lines_split : forall fuel b cur l rest, skip_blank_lines fuel b cur = Ok (l, rest) -> suffix rest cur /\ contains l cur.
+Proof.
+  induction fuel as [|f IH]; intros b cur l rest H; cbn [skip_blank_lines] in H; [discriminate|].
+  bind_ok H. destruct x as [l0 r0]. apply read_line_split in Ha. destruct Ha as [S [t T]].
+  match type of H with context [if ?c then _ else _] => destruct c end.
+  - apply IH in H. destruct H as [S' C']. split; [sfx|eapply contains_suffix; eauto].
+  - inversion H; subst l0 r0; clear H. split; [exact S|]. exists [], t. exact T.
+Qed.
+
+Lemma count_lines_suffix : forall fuel cur acc counts r, count_lines fuel cur acc = Ok (counts, r) -> suffix r cur.
+Proof.
+  induction fuel as [|f IH]; intros cur acc counts r H; cbn [count_lines] in H; [discriminate|].
+  bind_ok H. destruct x as [l rest]. apply read_line_split in Ha. destruct Ha as [S _].
+  destruct (entirely_whitespace l); [inv H; exact S|]. bind_ok H. apply IH in H. sfx.
+Qed.
+Lemma read_arpa_counts_suffix : forall cur counts r, read_arpa_counts cur = Ok (counts, r) -> suffix r cur.
+Proof.
+  intros cur counts r H. unfold read_arpa_counts in H. bind_ok H. destruct x as [l rest]. apply skip_blank_lines_split in Ha. destruct Ha as [S _].
+  destruct (negb (beq l s_data)); [discriminate|]. apply count_lines_suffix in H. sfx.
+Qed.
+Lemma read_ngram_header_suffix : forall n cur r, read_ngram_header n cur = Ok r -> suffix r cur.
+Proof.
+  intros n cur r H. unfold read_ngram_header in H. bind_ok H. destruct x as [l rest]. apply skip_blank_lines_split in Ha. destruct Ha as [S _].
+  destruct (beq l (92 :: decimal n ++ s_grams_colon)); [inv H; exact S|discriminate].
+Qed.
+Lemma read_1grams_suffix : forall fuel count cur words su acc words' su' us r,
+  read_1grams fuel count cur words su acc = Ok (words', su', us, r) -> suffix r cur.
+Proof.
+  induction fuel as [|f IH]; intros count cur words su acc words' su' us r H; cbn [read_1grams] in H.
+  - destruct (count =? 0); [inv H; sfx|discriminate].
+  - destruct (count =? 0); [inv H; sfx|]. bind_ok H. destruct x as [[[w p] b] r0]. apply read_1gram_suffix in Ha.
+    destruct (is_unk w); apply IH in H; sfx.
+Qed.
+Lemma read_ngrams_suffix : forall fuel st n longest count words caps cur ts acc es ts' r,
+  read_ngrams fuel st n longest count words caps cur ts acc = Ok (es, ts', r) -> suffix r cur.
+Proof.
+  induction fuel as [|f IH]; intros st n longest count words caps cur ts acc es ts' r H; cbn [read_ngrams] in H.
+  - destruct (count =? 0); [inv H; sfx|discriminate].
+  - destruct (count =? 0); [inv H; sfx|]. bind_ok H. destruct x as [e r0]. apply read_ngram_suffix in Ha. bind_ok H.
+    apply IH in H. sfx.
+Qed.
+Lemma read_sections_suffix : forall counts st n words caps cur ts acc secs ts' r,
+  read_sections st n counts words caps cur ts acc = Ok (secs, ts', r) -> suffix r cur.
+Proof.
+  induction counts as [|c more IH]; intros st n words caps cur ts acc secs ts' r H; cbn [read_sections] in H; [inv H; sfx|].
+  bind_ok H. apply read_ngram_header_suffix in Ha. bind_ok H. destruct x0 as [[es ts1] r1]. apply read_ngrams_suffix in Ha0.
+  apply IH in H. sfx.
+Qed.
+
+Lemma beq_eq : forall a b, beq a b = true -> a = b.
+Proof.
+  induction a as [|x a IH]; intros [|y b] H; simpl in H; try discriminate; [reflexivity|].
+  apply andb_prop in H. destruct H as [H1 H2]. apply N.eqb_eq in H1. subst. f_equal. apply IH. exact H2.
+Qed.
+
+Lemma read_end_contains : forall cur, read_end cur = Ok tt -> contains s_end cur.
+Proof.
+  intros cur H. unfold read_end in H. bind_ok H. destruct x as [l rest]. apply skip_blank_lines_split in Ha. destruct Ha as [_ C].
+  destruct (beq l s_end) eqn:B; [|discriminate]. apply beq_eq in B. subst l. exact C.
+Qed.
+
+Lemma accepted_text_contains_end : forall st file m, parse_arpa_text st file = Ok m -> contains s_end file.
+Proof.
+  intros st file m H. unfold parse_arpa_text in H. bind_ok H. destruct x as [counts r0]. apply read_arpa_counts_suffix in Ha.
+  destruct (Nat.ltb KENLM_MAX_ORDER (length counts)); [discriminate|]. destruct (Nat.ltb (length counts) 2); [discriminate|].
+  bind_ok H. apply read_ngram_header_suffix in Ha0. bind_ok H. destruct x0 as [[[words su] unigrams] r2]. apply read_1grams_suffix in Ha1.
+  destruct (index words s_bos =? 0); [discriminate|]. destruct (index words s_eos =? 0); [discriminate|].
+  bind_ok H. destruct x0 as [[sections ts] r3]. apply read_sections_suffix in Ha2.
+  bind_ok H. destruct x0. apply read_end_contains in Ha3.
+  eapply contains_suffix; [|exact Ha3]. sfx.
+Qed.
+
+(* a file in which the bytes \end\ do not occur -- in particular every truncation that cuts before or inside the end marker
+   of a file that has only that one -- is rejected *)
+Lemma reject_without_end_marker : forall st file, ~ contains s_end file -> forall m, parse_arpa st file <> Ok m.
+Proof.
+  intros st file N m H. apply N. unfold parse_arpa in H.
+  destruct (is_binary_file file); [discriminate|].
+  destruct (Nat.ltb 88 (length file) && starts_with magic_incomplete file); [discriminate|].
+  destruct (Nat.ltb 88 (length file) && starts_with magic_before_version file); [discriminate|].
+  destruct (compressed_magic file); [discriminate|]. eapply accepted_text_contains_end; eauto.
+Qed.
+
+(* the truncation statement proper: cut an accepted file anywhere before its (first and only needed) end marker is complete *)
+Lemma reject_truncated : forall st file k, ~ contains s_end (firstn k file) -> forall m, parse_arpa st (firstn k file) <> Ok m.
+Proof. intros st file k N. apply reject_without_end_marker. exact N. Qed.
+
+(* a decision procedure for `contains`, to evaluate the hypothesis on concrete files *)
+Fixpoint containsb (p s : list N) : bool :=
+  starts_with p s || match s with [] => false | _ :: r => containsb p r end.
+
+Lemma starts_with_app : forall p b, starts_with p (p ++ b) = true.
+Proof. induction p as [|x p IH]; intros b; simpl; [reflexivity|]. rewrite N.eqb_refl. simpl. apply IH. Qed.
+
+Lemma containsb_complete : forall p s, contains p s -> containsb p s = true.
+Proof.
+  intros p s [a [b H]]. subst s. induction a as [|x a IH]; simpl.
+  - pose proof (starts_with_app p b) as S. unfold containsb. destruct (p ++ b); rewrite S; reflexivity.
+  - rewrite IH. apply orb_true_r.
+Qed.
+
+Example truncation_hypothesis_satisfiable :
+  contains s_end (s_data ++ [10] ++ s_end ++ [10]) /\ ~ contains s_end (firstn 11 (s_data ++ [10] ++ s_end ++ [10])).
+Proof.
+  split.
+  - exists (s_data ++ [10]), [10]. rewrite <- !app_assoc. reflexivity.
+  - intros C. apply containsb_complete in C. vm_compute in C. discriminate.
 Qed.
